@@ -373,16 +373,20 @@ theorem gen_setUInt64 (f : Nat) (s : Heap) (this : Obj) (c : Cell) (hc : this.ce
   · simp only [h, ne_eq, not_false_eq_true, if_true]
     cases release (f + 1) s c <;> simp [Obj.cell, Val.type, Val.isBoxed]
 
+/-- the in-place branch of `setBoxedCell` at a given fuel for the element destructors -/
+def inPlaceAt (f : Nat) (s : Heap) (c : Cell) (p : Pay) : Option (Heap × Cell) :=
+  match c with
+  | .ptr b => (match s.heap b with
+    | some blk => (releaseAll f (setPay (copyPay s p).1 b (copyPay s p).2) blk.pay.cells).map (fun s2 => (s2, Cell.ptr b))
+    | none => none)
+  | _ => none
+
 /-- the translated `operator=(const Map&)`: the clone branch is `setBoxedCell`; the in-place branch is its in-place branch with
     the element destructors one level of fuel down (`releaseAll f`; the model says `f + 1`, more than needed) -/
 theorem gen_setMap (f : Nat) (s : Heap) (this : Obj) (c : Cell) (hc : this.cell = some c) (hl : Live s c) (p : Pay) (hp : p.type = 7) :
     (VariantRep.setMap (release f) s this p).bind (fun r => r.2.cell.map (fun c' => (r.1, c')))
       = if cellType s c ≠ 7 ∨ cellRef s c > 1 then setBoxedCell (f + 1) s c p
-        else (match c with
-          | .ptr b => (match s.heap b with
-            | some blk => (releaseAll f (setPay (copyPay s p).1 b (copyPay s p).2) blk.pay.cells).map (fun s2 => (s2, Cell.ptr b))
-            | none => none)
-          | _ => none) := by
+        else inPlaceAt f s c p := by
   have hcl : cellType s c ≠ 7 ∨ cellRef s c > 1 → (VariantRep.setMap (release f) s this p).bind (fun r => r.2.cell.map (fun c' => (r.1, c')))
       = setBoxedCell (f + 1) s c p := by
     intro hor
@@ -399,6 +403,7 @@ theorem gen_setMap (f : Nat) (s : Heap) (this : Obj) (c : Cell) (hc : this.cell 
   by_cases hor : cellType s c ≠ 7 ∨ cellRef s c > 1
   · rw [if_pos hor]; exact hcl hor
   · rw [if_neg hor]
+    unfold inPlaceAt
     have h1 : cellType s c = 7 := by by_cases h : cellType s c = 7; exact h; exact absurd (Or.inl h) hor
     have h2 : ¬ cellRef s c > 1 := fun h => hor (Or.inr h)
     obtain ⟨data, own⟩ := this
@@ -422,11 +427,7 @@ theorem gen_setMap (f : Nat) (s : Heap) (this : Obj) (c : Cell) (hc : this.cell 
 theorem gen_setList (f : Nat) (s : Heap) (this : Obj) (c : Cell) (hc : this.cell = some c) (hl : Live s c) (p : Pay) (hp : p.type = 8) :
     (VariantRep.setList (release f) s this p).bind (fun r => r.2.cell.map (fun c' => (r.1, c')))
       = if cellType s c ≠ 8 ∨ cellRef s c > 1 then setBoxedCell (f + 1) s c p
-        else (match c with
-          | .ptr b => (match s.heap b with
-            | some blk => (releaseAll f (setPay (copyPay s p).1 b (copyPay s p).2) blk.pay.cells).map (fun s2 => (s2, Cell.ptr b))
-            | none => none)
-          | _ => none) := by
+        else inPlaceAt f s c p := by
   have hcl : cellType s c ≠ 8 ∨ cellRef s c > 1 → (VariantRep.setList (release f) s this p).bind (fun r => r.2.cell.map (fun c' => (r.1, c')))
       = setBoxedCell (f + 1) s c p := by
     intro hor
@@ -443,6 +444,7 @@ theorem gen_setList (f : Nat) (s : Heap) (this : Obj) (c : Cell) (hc : this.cell
   by_cases hor : cellType s c ≠ 8 ∨ cellRef s c > 1
   · rw [if_pos hor]; exact hcl hor
   · rw [if_neg hor]
+    unfold inPlaceAt
     have h1 : cellType s c = 8 := by by_cases h : cellType s c = 8; exact h; exact absurd (Or.inl h) hor
     have h2 : ¬ cellRef s c > 1 := fun h => hor (Or.inr h)
     obtain ⟨data, own⟩ := this
@@ -466,11 +468,7 @@ theorem gen_setList (f : Nat) (s : Heap) (this : Obj) (c : Cell) (hc : this.cell
 theorem gen_setArray (f : Nat) (s : Heap) (this : Obj) (c : Cell) (hc : this.cell = some c) (hl : Live s c) (p : Pay) (hp : p.type = 9) :
     (VariantRep.setArray (release f) s this p).bind (fun r => r.2.cell.map (fun c' => (r.1, c')))
       = if cellType s c ≠ 9 ∨ cellRef s c > 1 then setBoxedCell (f + 1) s c p
-        else (match c with
-          | .ptr b => (match s.heap b with
-            | some blk => (releaseAll f (setPay (copyPay s p).1 b (copyPay s p).2) blk.pay.cells).map (fun s2 => (s2, Cell.ptr b))
-            | none => none)
-          | _ => none) := by
+        else inPlaceAt f s c p := by
   have hcl : cellType s c ≠ 9 ∨ cellRef s c > 1 → (VariantRep.setArray (release f) s this p).bind (fun r => r.2.cell.map (fun c' => (r.1, c')))
       = setBoxedCell (f + 1) s c p := by
     intro hor
@@ -487,6 +485,7 @@ theorem gen_setArray (f : Nat) (s : Heap) (this : Obj) (c : Cell) (hc : this.cel
   by_cases hor : cellType s c ≠ 9 ∨ cellRef s c > 1
   · rw [if_pos hor]; exact hcl hor
   · rw [if_neg hor]
+    unfold inPlaceAt
     have h1 : cellType s c = 9 := by by_cases h : cellType s c = 9; exact h; exact absurd (Or.inl h) hor
     have h2 : ¬ cellRef s c > 1 := fun h => hor (Or.inr h)
     obtain ⟨data, own⟩ := this
@@ -510,11 +509,7 @@ theorem gen_setArray (f : Nat) (s : Heap) (this : Obj) (c : Cell) (hc : this.cel
 theorem gen_setString (f : Nat) (s : Heap) (this : Obj) (c : Cell) (hc : this.cell = some c) (hl : Live s c) (p : Pay) (hp : p.type = 10) :
     (VariantRep.setString (release f) s this p).bind (fun r => r.2.cell.map (fun c' => (r.1, c')))
       = if cellType s c ≠ 10 ∨ cellRef s c > 1 then setBoxedCell (f + 1) s c p
-        else (match c with
-          | .ptr b => (match s.heap b with
-            | some blk => (releaseAll f (setPay (copyPay s p).1 b (copyPay s p).2) blk.pay.cells).map (fun s2 => (s2, Cell.ptr b))
-            | none => none)
-          | _ => none) := by
+        else inPlaceAt f s c p := by
   have hcl : cellType s c ≠ 10 ∨ cellRef s c > 1 → (VariantRep.setString (release f) s this p).bind (fun r => r.2.cell.map (fun c' => (r.1, c')))
       = setBoxedCell (f + 1) s c p := by
     intro hor
@@ -531,6 +526,7 @@ theorem gen_setString (f : Nat) (s : Heap) (this : Obj) (c : Cell) (hc : this.ce
   by_cases hor : cellType s c ≠ 10 ∨ cellRef s c > 1
   · rw [if_pos hor]; exact hcl hor
   · rw [if_neg hor]
+    unfold inPlaceAt
     have h1 : cellType s c = 10 := by by_cases h : cellType s c = 10; exact h; exact absurd (Or.inl h) hor
     have h2 : ¬ cellRef s c > 1 := fun h => hor (Or.inr h)
     obtain ⟨data, own⟩ := this
@@ -693,6 +689,78 @@ theorem release_mono_le (f g : Nat) (hfg : f ≤ g) (s : Heap) (c : Cell) (s' : 
 
 theorem releaseAll_mono (f : Nat) (s : Heap) (cs : List Cell) (s' : Heap) (h : releaseAll f s cs = some s') : releaseAll (f + 1) s cs = some s' :=
   foldlM_sub (release_mono f) cs s s' h
+
+
+/-- `a ⊑ b`: whenever `a` answers, `b` gives the same answer -/
+def Sub {α : Type} (a b : Option α) : Prop := ∀ r, a = some r → b = some r
+
+theorem setBoxedCell_clone_mono (f : Nat) (s : Heap) (c : Cell) (p : Pay) (h : cellType s c ≠ p.type ∨ cellRef s c > 1) :
+    Sub (setBoxedCell f s c p) (setBoxedCell (f + 1) s c p) := by
+  intro r hr
+  simp only [setBoxedCell, h, if_true] at hr ⊢
+  cases hrel : release f s c with
+  | none => simp [hrel] at hr
+  | some s1 => simp only [hrel] at hr; simp only [release_mono f s c s1 hrel]; exact hr
+
+theorem setBoxedCell_inplace (f : Nat) (s : Heap) (c : Cell) (p : Pay) (h : ¬ (cellType s c ≠ p.type ∨ cellRef s c > 1)) :
+    setBoxedCell f s c p = inPlaceAt f s c p := by
+  simp only [setBoxedCell, h, if_false, inPlaceAt]
+  cases c with
+  | ptr b => cases s.heap b with
+    | none => rfl
+    | some blk => cases copyPay s p; rfl
+  | null => rfl
+  | inl x => rfl
+
+/-- the fuel accounting of the in-place branch, closed: the translated boxed assignment with element destructors `release f` answers
+    only what the model's `setBoxedCell (f+1)` answers, and that only what the translated code answers with `release (f+1)` -/
+theorem boxed_sandwich (k : Nat) (s : Heap) (c : Cell) (p : Pay) (hp : p.type = k) (G : Nat → Option (Heap × Cell))
+    (hG : ∀ f, G f = if cellType s c ≠ k ∨ cellRef s c > 1 then setBoxedCell (f + 1) s c p
+        else inPlaceAt f s c p) (f : Nat) :
+    Sub (G f) (setBoxedCell (f + 1) s c p) ∧ Sub (setBoxedCell (f + 1) s c p) (G (f + 1)) := by
+  subst hp
+  by_cases h : cellType s c ≠ p.type ∨ cellRef s c > 1
+  · rw [hG f, hG (f + 1), if_pos h, if_pos h]
+    exact ⟨fun r hr => hr, setBoxedCell_clone_mono (f + 1) s c p h⟩
+  · rw [hG f, hG (f + 1), if_neg h, if_neg h, setBoxedCell_inplace (f + 1) s c p h]
+    refine ⟨?_, fun r hr => hr⟩
+    intro r hr
+    unfold inPlaceAt at hr ⊢
+    cases c with
+    | ptr b =>
+      cases hb : s.heap b with
+      | none => simp [hb] at hr
+      | some blk =>
+        simp only [hb] at hr ⊢
+        cases hra : releaseAll f (setPay (copyPay s p).1 b (copyPay s p).2) blk.pay.cells with
+        | none => simp [hra] at hr
+        | some s2 => rw [hra] at hr; rw [releaseAll_mono f _ _ s2 hra]; exact hr
+    | null => simp at hr
+    | inl x => simp at hr
+
+theorem gen_setMap_fuel (f : Nat) (s : Heap) (this : Obj) (c : Cell) (hc : this.cell = some c) (hl : Live s c) (p : Pay) (hp : p.type = 7) :
+    Sub ((VariantRep.setMap (release f) s this p).bind (fun r => r.2.cell.map (fun c' => (r.1, c')))) (setBoxedCell (f + 1) s c p) ∧
+    Sub (setBoxedCell (f + 1) s c p) ((VariantRep.setMap (release (f + 1)) s this p).bind (fun r => r.2.cell.map (fun c' => (r.1, c')))) :=
+  boxed_sandwich 7 s c p hp (fun f => (VariantRep.setMap (release f) s this p).bind (fun r => r.2.cell.map (fun c' => (r.1, c'))))
+    (fun f => gen_setMap f s this c hc hl p hp) f
+
+theorem gen_setList_fuel (f : Nat) (s : Heap) (this : Obj) (c : Cell) (hc : this.cell = some c) (hl : Live s c) (p : Pay) (hp : p.type = 8) :
+    Sub ((VariantRep.setList (release f) s this p).bind (fun r => r.2.cell.map (fun c' => (r.1, c')))) (setBoxedCell (f + 1) s c p) ∧
+    Sub (setBoxedCell (f + 1) s c p) ((VariantRep.setList (release (f + 1)) s this p).bind (fun r => r.2.cell.map (fun c' => (r.1, c')))) :=
+  boxed_sandwich 8 s c p hp (fun f => (VariantRep.setList (release f) s this p).bind (fun r => r.2.cell.map (fun c' => (r.1, c'))))
+    (fun f => gen_setList f s this c hc hl p hp) f
+
+theorem gen_setArray_fuel (f : Nat) (s : Heap) (this : Obj) (c : Cell) (hc : this.cell = some c) (hl : Live s c) (p : Pay) (hp : p.type = 9) :
+    Sub ((VariantRep.setArray (release f) s this p).bind (fun r => r.2.cell.map (fun c' => (r.1, c')))) (setBoxedCell (f + 1) s c p) ∧
+    Sub (setBoxedCell (f + 1) s c p) ((VariantRep.setArray (release (f + 1)) s this p).bind (fun r => r.2.cell.map (fun c' => (r.1, c')))) :=
+  boxed_sandwich 9 s c p hp (fun f => (VariantRep.setArray (release f) s this p).bind (fun r => r.2.cell.map (fun c' => (r.1, c'))))
+    (fun f => gen_setArray f s this c hc hl p hp) f
+
+theorem gen_setString_fuel (f : Nat) (s : Heap) (this : Obj) (c : Cell) (hc : this.cell = some c) (hl : Live s c) (p : Pay) (hp : p.type = 10) :
+    Sub ((VariantRep.setString (release f) s this p).bind (fun r => r.2.cell.map (fun c' => (r.1, c')))) (setBoxedCell (f + 1) s c p) ∧
+    Sub (setBoxedCell (f + 1) s c p) ((VariantRep.setString (release (f + 1)) s this p).bind (fun r => r.2.cell.map (fun c' => (r.1, c')))) :=
+  boxed_sandwich 10 s c p hp (fun f => (VariantRep.setString (release f) s this p).bind (fun r => r.2.cell.map (fun c' => (r.1, c'))))
+    (fun f => gen_setString f s this c hc hl p hp) f
 
 
 /-! ### non-vacuity: a heap with a list block shared by two handles, an object pointing to it -/
